@@ -1079,10 +1079,10 @@ def c08_real(ctx):
     return s
 
 PLANS["C08"] = dict(
-    modules=["Wx.Job.C08", "Wx.Job.C08b", "Wx.Job.C06", "Wx.Job.C08t", "Wx.Job.SimInduct3"],
-    theorems=["Jm.c08_quit_bound", "Jm.c08_deadline", "Jm.quit_deadline", "Jm.idle_timer", "Jm.deadline_simInv", "Jm.nextEvent_some", "Jm.nextEvent_none", "Jm.c08_delete_after_stop", "Jm.c08_delete_idle", "Jm.c08_same_script_fixed", "Jm.c08_fails_today", "Jm.timer_fires", "Jm.expiry_kills", "Jm.graceful_stop_step", "Jm.held_back", "Jm.c04"],
-    bins=[("lib", ["wxquit", "wxquitreal"])],
-    streams=lambda ctx: c08_streams(ctx) + [c08_real(ctx)],
+    modules=["Wx.Job.C08", "Wx.Job.C08b", "Wx.Job.C06", "Wx.Job.C08t", "Wx.Job.SimInduct3", "Wx.Cli.Action"],
+    theorems=["Ca.first_interrupt_quits_gracefully", "Ca.graceful_quit_sequence", "Ca.other_signals_pass", "Ca.interrupts_escalate", "Jm.c08_quit_bound", "Jm.c08_deadline", "Jm.quit_deadline", "Jm.idle_timer", "Jm.deadline_simInv", "Jm.nextEvent_some", "Jm.nextEvent_none", "Jm.c08_delete_after_stop", "Jm.c08_delete_idle", "Jm.c08_same_script_fixed", "Jm.c08_fails_today", "Jm.timer_fires", "Jm.expiry_kills", "Jm.graceful_stop_step", "Jm.held_back", "Jm.c04"],
+    bins=[("lib", ["wxquit", "wxquitreal"]), ("cli", ["wxcli-main", "wxcliaction"])],
+    streams=lambda ctx: c08_streams(ctx) + [c08_real(ctx), cli_e2e(ctx, "C08")] + c05_streams(ctx, "cli-quit", "C08", cliquit_cases, cliquit_oracle),
     sources=["crates/lib/src/action/worker.rs", "crates/lib/src/watchexec.rs", "crates/lib/src/late_join_set.rs", "crates/supervisor/src/job/task.rs"],
     rule="a case is one quit scenario (manner, instant, 1-4 jobs with behaviours and pre-quit controls); non-trivial = the shutdown takes virtual time; distinct by (scenario, observation)",
     assumptions=["the worker's quit branch (one task per job: stop_with_signal, delete().await; join; join job tasks) is composed from per-job runs of the job model by the check driver, not in Lean",
@@ -1190,11 +1190,81 @@ def c05_oracle(case, trace):
             out.append(f"{mode} mode: the last change (at {last_chg} ms) is not followed by a run that started after it")
     return out
 
-def c05_streams(ctx):
-    n = 15000 if ctx["thorough"] else 2500
-    s = core.StreamResult("cli-action")
-    d = core.WORK / "C05" / "cli-action"; d.mkdir(parents=True, exist_ok=True)
-    cases = c05_cases(ctx["seed"], n)
+def cliquit_cases(seed, n):
+    """C08, CLI part: INT / TERM (and other signals) delivered to watchexec while the command is idle, running, exiting, in a grace period"""
+    r = random.Random(seed * 389 + 8)
+    out = ["q1 --stop-timeout=50ms I init;a:30;sig:15;a:300", "q2 --stop-signal=SIGUSR1,--stop-timeout=80ms S10 init;a:30;sig:2;a:300",
+           "q3 --on-busy-update=restart I init;a:30;sig:10;a:50;sig:1;a:100", "q4 --stop-timeout=50ms I init;a:30;sig:15;a:10;sig:15;a:5;chg;a:300",
+           "q5 --stop-timeout=50ms E20 init;a:100;sig:2;a:100", "q6 --on-busy-update=restart,--stop-timeout=100ms I,I init;a:30;chg;a:40;sig:15;a:400",
+           "q7 --on-busy-update=queue,--stop-timeout=60ms E100,E100 init;a:30;chg;a:20;sig:2;a:400", "q8 --stop-timeout=0ms I a:10;sig:15;a:50"]
+    for i in range(n):
+        mode = r.choice(["do-nothing", "queue", "restart", "signal"])
+        flags = ["--on-busy-update=" + mode]
+        if r.random() < 0.4: flags.append("--stop-signal=" + r.choice(["SIGINT", "SIGUSR2", "SIGTERM", "SIGQUIT", "SIGHUP"]))
+        flags.append("--stop-timeout=" + r.choice(["0ms", "20ms", "50ms", "120ms", "300ms"]))
+        behs = []
+        for _ in range(r.randint(1, 3)):
+            k = r.random()
+            behs.append(f"E{r.choice([0, 20, 50, 100, 200])}" if k < 0.35 else f"S{r.choice([0, 10, 30, 100])}" if k < 0.65 else "I" if k < 0.95 else "F")
+        ops = []
+        if r.random() < 0.85: ops.append("init"); ops.append(r.choice(["y", "a:10", "a:30", "a:50", "a:100"]))
+        for _ in range(r.randint(0, 3)):
+            ops.append(r.choice(["chg", "chg", "sig:10", "sig:1", "sig:12"]))
+            ops.append(r.choice(["y", "a:0", "a:5", "a:20", "a:50", "a:100", "a:150"]))
+        ops.append("sig:" + r.choice(["15", "2"]))
+        for _ in range(r.randint(0, 2)):
+            ops.append(r.choice(["y", "a:0", "a:10", "a:40"])); ops.append(r.choice(["chg", "sig:15", "sig:2", "sig:10"]))
+        ops.append("a:" + r.choice(["400", "800"]))
+        out.append(f"cq{seed}_{i} {','.join(flags)} {','.join(behs)} {';'.join(ops)}")
+    return out
+
+def cliquit_oracle(case, trace):
+    cid, flags, behs, ops = case.split(" ")
+    fl = flags.split(",")
+    SIGNUM = {"SIGHUP": 1, "SIGINT": 2, "SIGQUIT": 3, "SIGUSR1": 10, "SIGUSR2": 12, "SIGTERM": 15}
+    stop_sig = next((SIGNUM.get(f.split("=")[1]) for f in fl if f.startswith("--stop-signal=")), None) or 15
+    tmo = next((int(f.split("=")[1][:-2]) for f in fl if f.startswith("--stop-timeout=")), 10000)
+    now = 0; tq = None; nchg = 0
+    mode = next((f.split("=")[1] for f in fl if f.startswith("--on-busy-update=")), "do-nothing")
+    for o in ops.split(";"):
+        if o.startswith("a:"): now += int(o[2:])
+        elif o in ("sig:15", "sig:2") and tq is None: tq = now
+        elif o == "chg" and tq is None: nchg += 1
+    if tq is None: return []
+    # the property's bound: the grace periods then in effect — graceful restarts still pending (at most one per earlier change in
+    # restart mode, each with the stop timeout) plus the quit's own
+    bound = tmo * (1 + (nchg if mode == "restart" else 0))
+    ev = [e.split(":") for e in trace.split("|") if e]
+    out = []
+    ends = [int(p[0]) for p in ev if p[1] == "mainend"]
+    if any(p[1].startswith("mainerr") or p[1] == "mainpanic" for p in ev): out.append("the main task ended with an error after the interrupt / terminate signal")
+    if not ends:
+        if now >= tq + bound + 1: out.append(f"interrupt / terminate signal at {tq} ms: the main task had not finished by the end of the script ({now} ms; grace periods in effect {bound} ms)")
+        else: return out
+    elif ends[0] - tq > bound: out.append(f"interrupt / terminate signal at {tq} ms: shutdown took {ends[0] - tq} ms, the grace periods in effect add up to {bound} ms")
+    live = {}
+    for p in ev:
+        if p[1] == "spawn": live[p[2]] = int(p[0])
+        elif p[1] in ("reaped", "dropped"): live.pop(p[2], None)
+    if live: out.append(f"process(es) {sorted(live)} started by the job were neither reaped nor dropped by the end of the shutdown")
+    if ends and any(p[1] == "spawn" and int(p[0]) > ends[0] for p in ev): out.append("a process was started after the main task had finished")
+    # the shutdown is the graceful one: the running command gets the stop signal at the quit, no kill before the stop timeout has elapsed
+    running_at_quit = [c for c, t in [(p[2], int(p[0])) for p in ev if p[1] == "spawn"] if t <= tq and not any(q[1] == "reaped" and q[2] == c and int(q[0]) <= tq for q in ev)]
+    for c in running_at_quit:
+        sigs = [q for q in ev if q[1] == "signal" and q[2] == c and int(q[0]) == tq]
+        pending_restart = any(q[1] == "signal" and q[2] == c and int(q[0]) < tq for q in ev)    # a graceful restart may already hold the queue
+        if not sigs and not pending_restart: out.append(f"interrupt / terminate at {tq} ms: the running command {c} did not get the stop signal ({stop_sig}) at that moment")
+        elif sigs and not pending_restart and all(q[3] != str(stop_sig) for q in sigs): out.append(f"interrupt / terminate at {tq} ms: the command got signal {sigs[0][3]}, the configured stop signal is {stop_sig}")
+        kills = [int(q[0]) for q in ev if q[1] == "kill" and q[2] == c]
+        if kills and not pending_restart and kills[0] < tq + tmo: out.append(f"the command was killed {kills[0] - tq} ms after the interrupt / terminate signal, before the stop timeout ({tmo} ms) had elapsed")
+    return out
+
+def c05_streams(ctx, name="cli-action", pid="C05", gen=None, oracle=None):
+    n = (15000 if ctx["thorough"] else 2500) if gen is None else (6000 if ctx["thorough"] else 1200)
+    gen = gen or c05_cases; oracle = oracle or c05_oracle
+    s = core.StreamResult(name)
+    d = core.WORK / pid / name; d.mkdir(parents=True, exist_ok=True)
+    cases = gen(ctx["seed"], n)
     (d / "cases.txt").write_text("\n".join(cases) + "\n")
     k = 12
     chunks = [cases[i::k] for i in range(k)]
@@ -1217,9 +1287,10 @@ def c05_streams(ctx):
         alts = (mo.split(" ", 1)[1] if " " in mo else "").split(" ## ")
         if len(alts) > 1: s.bump("racy (model admits several traces)")
         if tr not in alts: s.disagreements.append((i, c, tr, " ## ".join(alts[:3])) if len(s.disagreements) < 60 else (i, "", "", ""))
-        for what in c05_oracle(c, tr): s.oracle_failures.append((i, c, tr, what))
+        for what in oracle(c, tr): s.oracle_failures.append((i, c, tr, what))
         for f in c.split(" ")[1].split(","): s.bump(f.split("=")[0] + ("=" + f.split("=")[1] if f.startswith("--on-busy") else ""))
-        if tr.count("spawn:") >= 2: s.nontrivial.add(hashlib.md5((c.split(" ", 1)[1] + tr).encode()).digest()[:8])
+        if "sig:" in c: s.bump("signal delivered to watchexec")
+        if tr.count("spawn:") >= 2 or "mainend" in tr: s.nontrivial.add(hashlib.md5((c.split(" ", 1)[1] + tr).encode()).digest()[:8])
         if i % max(1, len(cases) // 3) == 0 and len(s.samples) < 3: s.samples.append({"case": c, "impl": tr[:300], "model": alts[0][:300]})
     s.note = ("the CLI's REAL action handler (hook H1: args_from(argv) -> make_config -> Watchexec::with_config) on a paused current-thread runtime with simulated children (H1's extra spawn "
               "hook): the four --on-busy-update modes and the -r / --signal shorthands x --stop-signal x --stop-timeout x child behaviours x change bursts placed before start, mid-run, at "
@@ -1289,18 +1360,98 @@ def c05_e2e(ctx):
               "attempts where the scenario did not form are inconclusive and not counted")
     return s
 
+def cli_e2e(ctx, pid):
+    """End to end with the built CLI binary, real files, real time, real signals: the parts of C05 and C08 that live in
+    run_watchexec / the signal source rather than in the action handler — the start-up run and --postpone (C05), and an
+    interrupt or terminate signal sent to watchexec itself leading to the graceful shutdown (C08)."""
+    import time, shutil, signal as sg
+    s = core.StreamResult("e2e-cli")
+    base = core.WORK / pid / "e2e-cli"
+    def setup(name):
+        d = base / name; shutil.rmtree(d, ignore_errors=True); (d / "proj").mkdir(parents=True); (d / "home").mkdir()
+        return d, d / "log"
+    def launch(d, extra, script):
+        cmd = [str(core.TARGET / "wxcli-main"), "--project-origin", str(d / "proj"), "-w", str(d / "proj"), "--no-vcs-ignore", "-n", "-q"] + extra + ["--", "sh", "-c", script]
+        return subprocess.Popen(cmd, stderr=subprocess.DEVNULL, stdout=subprocess.DEVNULL, env=dict(os.environ, HOME=str(d / "home")), cwd=str(d / "proj"))
+    def wait_line(log, word, secs):
+        t0 = time.time()
+        while time.time() - t0 < secs:
+            if log.exists() and any(l.startswith(word) for l in log.read_text().splitlines()): return time.time() - t0
+            time.sleep(0.02)
+        return None
+    def alive(pid_):
+        try:
+            st = open(f"/proc/{pid_}/stat").read().rsplit(")", 1)[1].split()[0]
+            return st != "Z"
+        except OSError: return False
+    def finish(p):
+        if p.poll() is None:
+            p.kill()
+            try: p.wait(timeout=5)
+            except Exception: pass
+    def startup(postpone):
+        d, log = setup("postpone" if postpone else "startup")
+        p = launch(d, ["--postpone"] if postpone else [], f'echo "START $$" >> {log}; sleep 20')
+        try:
+            if not postpone:
+                t = wait_line(log, "START", 6.0)
+                return [] if t is not None else ["without --postpone the command was not started at start-up (no run within 6 s, no change made)"]
+            t = wait_line(log, "START", 1.5)
+            if t is not None: return [f"with --postpone the command was started at start-up ({t:.2f} s), before any change"]
+            (d / "proj" / "f").write_text("x")
+            t = wait_line(log, "START", 6.0)
+            return [] if t is not None else ["with --postpone the first change did not start the command within 6 s"]
+        finally:
+            finish(p)
+            for l in (log.read_text().splitlines() if log.exists() else []):
+                try: os.kill(int(l.split()[1]), 9)
+                except Exception: pass
+    def quit_on(signame, ignoring):
+        d, log = setup(f"quit-{signame}-{'ignoring' if ignoring else 'exiting'}")
+        script = (f'trap "" TERM; echo "START $$" >> {log}; while :; do sleep 0.1; done') if ignoring else (f'trap "exit 0" TERM; echo "START $$" >> {log}; while :; do sleep 0.1; done')
+        p = launch(d, ["--stop-timeout=700ms"], script)
+        try:
+            if wait_line(log, "START", 6.0) is None: return None     # inconclusive: the command never started
+            child = int(log.read_text().split()[1])
+            time.sleep(0.2)
+            t0 = time.time(); p.send_signal(getattr(sg, signame))
+            try: p.wait(timeout=8)
+            except Exception: return [f"{signame} sent to watchexec: it had not exited after 8 s (stop timeout 700 ms, command {'ignores' if ignoring else 'exits on'} the stop signal)"]
+            took = time.time() - t0
+            out = []
+            bound = 0.7 + 1.5
+            if took > bound: out.append(f"{signame} sent to watchexec: shutdown took {took:.2f} s, stop timeout 0.7 s (+1.5 s margin)")
+            if ignoring and took < 0.6: out.append(f"{signame} sent to watchexec: it exited after {took:.2f} s although the command ignores the stop signal and the stop timeout is 0.7 s (killed early or left behind)")
+            time.sleep(0.3)
+            if alive(child): out.append(f"{signame} sent to watchexec: the command (pid {child}) is still alive after watchexec exited")
+            return out
+        finally:
+            finish(p)
+            for l in (log.read_text().splitlines() if log.exists() else []):
+                try: os.kill(int(l.split()[1]), 9)
+                except Exception: pass
+    jobs = ([("start-up run", lambda: startup(False)), ("--postpone", lambda: startup(True))] if pid == "C05" else
+            [(f"{sn} {'ignored' if ig else 'honoured'}", (lambda sn=sn, ig=ig: quit_on(sn, ig))) for sn in ("SIGINT", "SIGTERM") for ig in (False, True)])
+    with ThreadPoolExecutor(len(jobs)) as ex: results = list(ex.map(lambda j: j[1](), jobs))
+    for i, ((name, _), r) in enumerate(zip(jobs, results)):
+        s.evaluations += 1; s.bump(name if r is not None else name + " (inconclusive)"); s.nontrivial.add(name.encode())
+        for what in (r or []): s.oracle_failures.append((i, "e2e " + name, "", what))
+    s.samples.append({"scenarios": [j[0] for j in jobs]})
+    s.note = "built watchexec binary (harness-cli/wxcli-main = watchexec_cli::run), real files, real signals, wall-clock margins of seconds; oracle only"
+    return s
+
 PLANS["C05"] = dict(
     modules=["Wx.Cli.Action", "Wx.Queue.Props", "Wx.Job.C04Sim", "Wx.Job.C06"],
     theorems=["Ca.react_idle", "Ca.react_doNothing", "Ca.react_signal", "Ca.react_restart", "Ca.react_queue_first", "Ca.react_queue_again", "Ca.react_no_forceful",
               "Qm.perRun_fresh", "Qm.f10_today", "Qm.reorder_insufficient", "Jm.c04", "Jm.graceful_restart_step", "Jm.graceful_stop_step"],
     bins=[("cli", ["wxcliaction", "wxcli-main"])],
-    streams=lambda ctx: c05_streams(ctx) + [c05_e2e(ctx)],
+    streams=lambda ctx: c05_streams(ctx) + [c05_e2e(ctx), cli_e2e(ctx, "C05")],
     sources=["crates/cli/src/config.rs", "crates/cli/src/lib.rs", "crates/cli/src/args/events.rs", "crates/supervisor/src/job/job.rs"],
     rule="a case is one script (CLI flags, child behaviours, init / change / advance ops); non-trivial = at least two runs are started; distinct by (script, observation)",
     assumptions=["the action handler's reaction is modelled as one function of (mode, job state when the query closure runs, queued-for record) composed with the job-task model by the driver",
                  "queue-mode freshness over ALL interleavings of handler, job task and follow-up tasks is proved on the abstract protocol model Wx/Queue (perRun_fresh); its tie to the code is this stream (deterministic schedules) plus the end-to-end stalled-stderr replay recorded in DESIGN.md",
                  "clap parsing and the normalise() functions run for real (hook H1)"],
-    partial="the start-up event is outside the model; the all-interleavings freshness theorem is about the abstract queue protocol, not about the composed model",
+    partial="the start-up event is outside the model (it is exercised end to end with the built binary: e2e-cli); the all-interleavings freshness theorem is about the abstract queue protocol, not about the composed model",
 )
 
 # ------------------------------------------------------------------------------------------------
